@@ -216,8 +216,13 @@ def check_case(m, renames_arg, rng=None, numeric: bool = True, pickle_check: boo
     # the numeric clause needs every symbol to keep its assumptions.
     asm_preserved = all(s.assumptions0 == t.assumptions0 for s, t in changed.items())
     facts["assumptions_preserved"] = asm_preserved
+    # When a symbol changes its declaration (merge onto an existing or a first-source symbol), SymPy may also UNDO a
+    # simplification of the original (a term with a factor declared zero vanishes from `expression`; after the merge
+    # the factor is an ordinary symbol and the term, with all its symbols, is back): then only "images of the symbols
+    # of the whole model" can be claimed.
     fe_m, fe_r = symbols_of(m.expression), symbols_of(r.expression)
-    if not fe_r <= {mp[s] for s in fe_m} or (facts["merged"] == 0 and asm_preserved and fe_r != {mp[s] for s in fe_m}):
+    allowed = {mp[s] for s in fe_m} if asm_preserved else image
+    if not fe_r <= allowed or (facts["merged"] == 0 and asm_preserved and fe_r != {mp[s] for s in fe_m}):
         bad("attributes", "free symbols of the renamed model's expression are not the images of the original's",
             got=sorted(str(s) for s in fe_r), expected=sorted(str(mp[s]) for s in fe_m))
 
@@ -239,6 +244,30 @@ def check_case(m, renames_arg, rng=None, numeric: bool = True, pickle_check: boo
         src = [u for u, t in changed.items() if t == s]
         if s not in syms and all(s.assumptions0 != u.assumptions0 for u in src):
             bad("assumptions", "fresh symbol does not carry the assumptions of a source", symbol=s)
+    # the symbols actually found in the result (not the specified ones): every fact of the source, True- or False-valued,
+    # is a fact of the fresh symbol and vice versa — compared as complete dicts, and through the generators the symbol
+    # was created from (what pickling stores): Symbol(name, **generators) has the source's assumptions0 again
+    by_name_r: dict = {}
+    for u in res_syms | set(r.parameter_defaults) | set(r.kinematic_variables):
+        if isinstance(u, sp.Symbol):
+            by_name_r.setdefault(u.name, set()).add(u)
+    for s, t in changed.items():
+        fresh = renames[s.name] not in {u.name for u in syms if u.name not in renames}
+        alone = sum(1 for u in syms if u.name in renames and renames[u.name] == renames[s.name]) == 1
+        if not (fresh and alone):
+            continue
+        for u in by_name_r.get(renames[s.name], ()):
+            lost = {k: v for k, v in s.assumptions0.items() if u.assumptions0.get(k) != v}
+            gained = {k: v for k, v in u.assumptions0.items() if k not in s.assumptions0}
+            if lost or gained:
+                bad("assumptions", "renamed symbol does not have exactly the assumptions of its source", symbol=s,
+                    lost=lost, gained=gained)
+                break
+            gen = getattr(u, "_assumptions_orig", None)
+            if gen is not None and sp.Symbol(u.name, **gen).assumptions0 != s.assumptions0:
+                bad("assumptions", "the generators stored in the renamed symbol do not regenerate the assumptions of its source",
+                    symbol=s, generators=gen)
+                break
 
     # ---- closure (C01)
     if c01_holds(m) and not par_kin_clash:
@@ -472,7 +501,31 @@ def _violates_assumptions(sym, value) -> bool:
             return True
         if sym.is_negative and np.any(v.real >= 0):
             return True
+    # declarations the library does not make (zero=False, integer=True, real=False, …): every fact against every value
+    if _exotic(sym):
+        import sympy as sp
+
+        for x in v.tolist():
+            z = sp.sympify(x.real if x.imag == 0 else x)
+            for fact, want in sym.assumptions0.items():
+                if fact == "commutative":
+                    continue
+                got = getattr(z, "is_" + fact, None)
+                if got is not None and got != want:
+                    return True
     return False
+
+
+_PLAIN: set = set()
+
+
+def _exotic(sym) -> bool:
+    import sympy as sp
+
+    if not _PLAIN:
+        for kw in ({}, {"real": True}, {"positive": True}, {"nonnegative": True}, {"complex": True}, {"rational": True}):
+            _PLAIN.add(tuple(sorted(sp.Symbol("x", **kw).assumptions0.items())))
+    return tuple(sorted(sym.assumptions0.items())) not in _PLAIN
 
 
 def numeric_clause(m, r, mp, rng, n_events: int = 4) -> dict:
